@@ -3,17 +3,19 @@ import json, os, subprocess
 import vlib
 from vlib import Broken, log
 
-NBFL = {"SK": 0, "OK": 1, "LIN": 3, "EXT": 2}
+NBFL = None
 
 
 def configs(ck, tier):
     if tier == "quick":
-        consts = dict(nvar=2, ns=3, drifts='{"SK", "OK", "LIN", "EXT"}', verr="{FALSE, TRUE}", targets='{"point", "block"}')
+        consts = dict(nvar=2, ns=3, drifts='{"SK", "OK", "LIN", "EXT"}', verr="{FALSE, TRUE}", targets='{"point", "block"}',
+                      ndims="{2}", bigns="{7}")
     else:
-        consts = dict(nvar=2, ns=4, drifts='{"SK", "OK", "LIN", "EXT"}', verr="{FALSE, TRUE}", targets='{"point", "block"}')
+        consts = dict(nvar=2, ns=4, drifts='{"SK", "OK", "LIN", "EXT", "QUAD"}', verr="{FALSE, TRUE}", targets='{"point", "block"}',
+                      ndims="{1, 2, 3}", bigns="{6, 7}")
     cfg = os.path.join(ck.work, "ks.cfg")
     open(cfg, "w").write("SPECIFICATION Spec\nCONSTANTS\n  MaxNvar = %(nvar)d\n  MaxNs = %(ns)d\n  Drifts = %(drifts)s\n  WithVerr = %(verr)s\n"
-                         "  Targets = %(targets)s\nINVARIANT AlgEqualsDef Symmetric Count HasUniversality PermuteLaw ExactLaw UniversalityLaw\nCONSTRAINT Emit\nCHECK_DEADLOCK FALSE\n" % consts)
+                         "  Targets = %(targets)s\n  Ndims = %(ndims)s\n  BigNs = %(bigns)s\nINVARIANT AlgEqualsDef Symmetric Count HasUniversality PermuteLaw ExactLaw UniversalityLaw\nCONSTRAINT Emit\nCHECK_DEADLOCK FALSE\n" % consts)
     res = vlib.run_tlc("KrigingSystem", cfg, workers=8, timeout=3000)
     if res.violation:
         raise Broken("KrigingSystem.tla: the transcription of the system assembly differs from the definition:\n" + res.violation)
@@ -25,7 +27,7 @@ def configs(ck, tier):
 def authorized(c):
     """the system is solvable: every variable has at least as many data as drift functions (and >= 1)"""
     cfg = c["cfg"]
-    nb = NBFL[cfg["drift"]]
+    nb = len(cfg["funcs"])
     for v in range(cfg["nvar"]):
         nd = sum(1 for s in range(cfg["ns"]) if cfg["def"][s][v])
         if nd < max(1, nb):
